@@ -426,15 +426,19 @@ Section WithData.
   Lemma eff_fail_flag x : eff_fail (f_fo x) (the_section x) = fail_flag x.
   Proof. reflexivity. Qed.
 
-  (* Policy.get_entity_categories reads the label FIRST (finding C10-F5): Spec.label_first_names *)
-  Lemma req_names_ok ds rn : req_names ds = Ok rn -> rn = flat_map label_first_name ds.
+  (* since 4be62a1c Policy.get_entity_categories reads Name + NameFormat first: the declared names *)
+  Lemma req_names_ok ds : req_names ds = flat_map required_name ds.
+  Proof. reflexivity. Qed.
+
+  (* before 4be62a1c (finding C10-F5) it read the label first: Spec.label_first_names *)
+  Lemma req_names_v0_ok ds rn : req_names_v0 ds = Ok rn -> rn = flat_map label_first_name ds.
   Proof.
-    revert rn. induction ds as [|d r IH]; intros rn; cbn [req_names flat_map].
+    revert rn. induction ds as [|d r IH]; intros rn; cbn [req_names_v0 flat_map].
     - intros H; inversion H; reflexivity.
-    - destruct (req_name d) as [n| |] eqn:En; try discriminate.
-      destruct (req_names r) as [ns| |] eqn:Er; try discriminate.
+    - destruct (req_name_v0 d) as [n| |] eqn:En; try discriminate.
+      destruct (req_names_v0 r) as [ns| |] eqn:Er; try discriminate.
       intros H; inversion H; subst rn. rewrite <- (IH ns eq_refl).
-      unfold req_name in En. unfold label_first_name. destruct (tr (ra_friendly d)) as [f|].
+      unfold req_name_v0 in En. unfold label_first_name. destruct (tr (ra_friendly d)) as [f|].
       + inversion En; reflexivity.
       + destruct (ra_nf d); [|discriminate]. destruct (ra_loc_r d) as [l|]; [|discriminate].
         inversion En; reflexivity.
@@ -475,25 +479,6 @@ Section WithData.
         congruence.
   Qed.
 
-  (* outside the class of finding C10-F5: every category entry in force either ignores the required
-     attributes or the label-first reading of their names is the declared one *)
-  Definition names_agree (x : finput) : Prop :=
-    forall e, In e (the_entries ectab x) ->
-      ec_only_required e = false \/ label_first_names x = required_names x.
-
-  Lemma entry_attrs_rn rn1 rn2 ecs e :
-    ec_only_required e = false -> entry_attrs rn1 ecs e = entry_attrs rn2 ecs e.
-  Proof. intros H. unfold entry_attrs, narrowed. rewrite H. reflexivity. Qed.
-
-  Lemma entry_attrs_grants_lf x e n :
-    ec_only_required e = false \/ label_first_names x = required_names x ->
-    (In n (entry_attrs (label_first_names x) (f_ecs x) e) <-> grants x e n).
-  Proof.
-    intros [H|H].
-    - rewrite (entry_attrs_rn _ (required_names x) _ _ H). apply entry_attrs_grants.
-    - rewrite H. apply entry_attrs_grants.
-  Qed.
-
   Definition resets (rn ecs : list string) (e : ecentry) : bool :=
     negb (is_nil (entry_attrs rn ecs e)) && ec_no_agg e.
 
@@ -530,15 +515,14 @@ Section WithData.
     get_ec ectab (the_section x) ecs (f_req x) = Ok er ->
     (the_entries ectab x = [] /\ er = [])
     \/ (the_entries ectab x <> []
-        /\ er = fold_left (ec_step (label_first_names x) (f_ecs x)) (the_entries ectab x) []).
+        /\ er = fold_left (ec_step (required_names x) (f_ecs x)) (the_entries ectab x) []).
   Proof.
     intros Hecs. unfold get_ec, the_entries. destruct (the_section x) as [s|].
     2:{ intros H; inversion H. left; split; reflexivity. }
     destruct (s_ecs s) as [|n0 names] eqn:En.
     { intros H; inversion H. left; split; reflexivity. }
     fold (maps_of ectab (n0 :: names)).
-    destruct (req_names (f_req x)) as [rn| |] eqn:Er; try discriminate.
-    apply req_names_ok in Er. fold (label_first_names x) in Er. subst rn. rewrite Hecs.
+    rewrite req_names_ok. fold (required_names x). rewrite Hecs.
     remember (maps_of ectab (n0 :: names)) as ents eqn:Em.
     intros H; inversion H; subst er. destruct ents as [|e l].
     - left. split; reflexivity.
@@ -554,13 +538,13 @@ Section WithData.
 
   (* every name that passes the entity-category stage is granted by the categories *)
   Lemma ec_stage x k us :
-    the_entries ectab x <> [] -> ~ In "" (keys (f_ident x)) -> names_agree x ->
+    the_entries ectab x <> [] -> ~ In "" (keys (f_ident x)) ->
     In (k, us) (fava rmatch (f_ident x)
-                 (Some (names_restr (fold_left (ec_step (label_first_names x) (f_ecs x)) (the_entries ectab x) [])))) ->
+                 (Some (names_restr (fold_left (ec_step (required_names x) (f_ecs x)) (the_entries ectab x) [])))) ->
     ec_name_ok ectab x k.
   Proof.
-    intros Hne Hwf Hag Hin.
-    set (er := fold_left (ec_step (label_first_names x) (f_ecs x)) (the_entries ectab x) []) in *.
+    intros Hne Hwf Hin.
+    set (er := fold_left (ec_step (required_names x) (f_ecs x)) (the_entries ectab x) []) in *.
     assert (Her : er <> []) by (apply ec_fold_nonempty; exact Hne).
     assert (Hnr : names_restr er <> []) by (destruct er; [contradiction|discriminate]).
     destruct (names_restr er) as [|p R'] eqn:En; [contradiction|].
@@ -572,12 +556,8 @@ Section WithData.
     apply ec_fold_In in Hl. destruct Hl as [Hl|[[[] _]|[pre [e [post [Ee [Hi Hn]]]]]]].
     - exfalso. apply lower_empty in Hl. subst k. apply Hwf. unfold keys. apply in_map_iff.
       exists ("", us0). split; [reflexivity|exact Hu].
-    - assert (Hine : forall e0, In e0 (e :: post) -> In e0 (the_entries ectab x)).
-      { intros e0 H0. rewrite Ee. apply in_or_app. right. exact H0. }
-      exists pre, e, post. split; [exact Ee|].
-      split; [apply (entry_attrs_grants_lf x e (lower k) (Hag e (Hine e (or_introl eq_refl)))); exact Hi|].
-      intros e' He' Hna n Hg. apply (entry_attrs_grants_lf x e' n (Hag e' (Hine e' (or_intror He')))) in Hg.
-      specialize (Hn e' He'). unfold resets in Hn.
+    - exists pre, e, post. split; [exact Ee|]. split; [apply entry_attrs_grants; exact Hi|].
+      intros e' He' Hna n Hg. apply entry_attrs_grants in Hg. specialize (Hn e' He'). unfold resets in Hn.
       rewrite Hna, andb_true_r in Hn. apply negb_false_iff in Hn. apply is_nil_true in Hn. rewrite Hn in Hg. contradiction.
   Qed.
 
@@ -639,10 +619,9 @@ Section WithData.
     ecs_of ecs = f_ecs x ->
     (fail_flag x = true -> eff_fail fo (the_section x) = true) ->
     (the_entries ectab x <> [] -> ~ In "" (keys (f_ident x))) ->
-    names_agree x ->
     pfilter_of x ecs fo = Ok r -> released_ok rmatch ectab x r.
   Proof.
-    intros Hecs Hfl Hwf Hag. unfold pfilter_of, pfilter. rewrite applicable_the_section.
+    intros Hecs Hfl Hwf. unfold pfilter_of, pfilter. rewrite applicable_the_section.
     destruct (get_ec ectab (the_section x) ecs (f_req x)) as [er| |] eqn:Eg; try discriminate.
     apply (get_ec_cases x ecs er Hecs) in Eg. rewrite get_ar_the_ar.
     destruct Eg as [[Hent ->]|[Hent ->]].
@@ -665,7 +644,7 @@ Section WithData.
       rewrite match_nonempty by (apply ec_fold_nonempty; exact Hent).
       intros H; apply Ok_inj in H; subst r. apply assemble.
       + apply fava_subset.
-      + intros _ k us Hin. eapply ec_stage; [exact Hent|apply Hwf; exact Hent|exact Hag|exact Hin].
+      + intros _ k us Hin. eapply ec_stage; [exact Hent|apply Hwf; exact Hent|exact Hin].
       + intros Hf. exfalso. apply Hf. exact Hent.
       + intros [Hf _]. apply Hf. exact Hent.
   Qed.
@@ -709,12 +688,11 @@ Section WithData.
   Lemma of_md_released_ok x req opt fo fo' r :
     (fail_flag (of_md x req opt fo') = true -> eff_fail fo (the_section (of_md x req opt fo')) = true) ->
     (the_entries ectab (of_md x req opt fo') <> [] -> ~ In "" (keys (i_ident x))) ->
-    names_agree (of_md x req opt fo') ->
     pfilter rmatch ectab (i_ident x) (i_pol x) (i_sp x) (eff_ecs (i_md x)) (eff_ra (i_md x)) req opt fo = Ok r ->
     released_ok rmatch ectab (of_md x req opt fo') r.
   Proof.
-    intros Hfl Hwf Hag Hf. apply (pfilter_released_ok _ (eff_ecs (i_md x)) fo);
-      [apply ecs_of_md|exact Hfl|exact Hwf|exact Hag|exact Hf].
+    intros Hfl Hwf Hf. apply (pfilter_released_ok _ (eff_ecs (i_md x)) fo);
+      [apply ecs_of_md|exact Hfl|exact Hwf|exact Hf].
   Qed.
 
   Lemma f_ident_flat x : f_ident (flat x) = i_ident x.
@@ -726,27 +704,14 @@ Section WithData.
     apply negb_true_iff in H. intros Hi. apply mem_In in Hi. congruence.
   Qed.
 
-  (* what the guard says: the input assumption wf, and outside the class of finding C10-F5 *)
-  Lemma guard_true x : guard ectab x = true -> wf ectab x = true /\ names_agree (flat x).
-  Proof.
-    unfold guard. intros H. apply andb_true_iff in H as [Hw H3]. split; [exact Hw|].
-    apply negb_true_iff in H3. unfold class3 in H3. apply andb_false_iff in H3 as [H3|H3].
-    - intros e He. left. destruct (ec_only_required e) eqn:Eo; [|reflexivity].
-      assert (Ht : existsb ec_only_required (the_entries ectab (flat x)) = true).
-      { apply existsb_exists. exists e. split; assumption. }
-      congruence.
-    - intros e _. right. apply negb_false_iff in H3.
-      apply (list_eqb_eq String.eqb String.eqb_eq). exact H3.
-  Qed.
-
   Lemma guard_no_ec x : the_entries ectab (flat x) = [] -> guard ectab x = true.
-  Proof. intros He. unfold guard, wf, class3. rewrite He. reflexivity. Qed.
+  Proof. intros He. unfold guard, wf. rewrite He. reflexivity. Qed.
 
   (* the released attributes of every entry point *)
   Lemma entry_released_ok x r :
-    guard ectab x = true -> o_out (run rmatch ectab x) = Ok r -> released_ok rmatch ectab (flat x) r.
+    wf ectab x = true -> o_out (run rmatch ectab x) = Ok r -> released_ok rmatch ectab (flat x) r.
   Proof.
-    intros Hg. destruct (guard_true x Hg) as [Hw Hag]. pose proof (wf_true x Hw) as Hwf.
+    intros Hw. pose proof (wf_true x Hw) as Hwf.
     unfold run. unfold flat in *. destruct (i_entry x) as [fail req opt|req opt fo|fo|fo|be] eqn:Ee; cbn [o_out].
     - (* filter_on_attributes *)
       intros Hf.
@@ -763,21 +728,21 @@ Section WithData.
       + intros Hc. exfalso. apply Hc; exact Hent.
       + intros _ _. exact H2.
       + exact H3.
-    - intros Hf. apply (of_md_released_ok x req opt fo fo r); [intros H; exact H|exact Hwf|exact Hag|exact Hf].
-    - intros Hf. apply (of_md_released_ok x _ _ fo fo r); [intros H; exact H|exact Hwf|exact Hag|exact Hf].
-    - intros Hf. apply (of_md_released_ok x _ _ fo fo r); [intros H; exact H|exact Hwf|exact Hag|exact Hf].
+    - intros Hf. apply (of_md_released_ok x req opt fo fo r); [intros H; exact H|exact Hwf|exact Hf].
+    - intros Hf. apply (of_md_released_ok x _ _ fo fo r); [intros H; exact H|exact Hwf|exact Hf].
+    - intros Hf. apply (of_md_released_ok x _ _ fo fo r); [intros H; exact H|exact Hwf|exact Hf].
     - (* Server: the first pass, or (best effort) the second pass with fail_on_missing=False *)
       intros Hf. unfold authn_response, setup_assertion in Hf.
       destruct (restrict rmatch ectab (i_ident x) (i_pol x) (i_sp x) (i_md x) None) as [out| |] eqn:Er; try discriminate.
       + inversion Hf; subst r.
         eapply released_ok_mono; [|intros e; apply self_after_In].
-        apply (of_md_released_ok x _ _ None _ out); [|exact Hwf|exact Hag|exact Er].
+        apply (of_md_released_ok x _ _ None _ out); [|exact Hwf|exact Er].
         destruct be; [intros H; cbn in H; discriminate H|intros H; exact H].
       + destruct be; [|discriminate].
         destruct (restrict rmatch ectab (i_ident x) (i_pol x) (i_sp x) (i_md x) (Some false)) as [out| |] eqn:Er2; try discriminate.
         inversion Hf; subst r.
         eapply released_ok_mono; [|intros e; apply self_after_In].
-        apply (of_md_released_ok x _ _ (Some false) _ out); [|exact Hwf|exact Hag|exact Er2].
+        apply (of_md_released_ok x _ _ (Some false) _ out); [|exact Hwf|exact Er2].
         intros H; cbn in H; discriminate H.
   Qed.
 
@@ -791,11 +756,10 @@ Section WithData.
   Proof. unfold run. destruct (i_entry x); cbn; auto. Qed.
 
   (* main theorem: the model satisfies the property, for every identity, policy, requester
-     metadata, regex matcher, category table and entry point (guard = the input assumption wf, outside
-     the class of the open finding C10-F5) *)
+     metadata, regex matcher, category table and entry point (guard = the input assumption wf) *)
   Lemma run_spec x : guard ectab x = true -> spec rmatch ectab (flat x) (run rmatch ectab x).
   Proof.
-    intros Hw. unfold spec. split; [rewrite caller_unchanged, f_ident_flat; reflexivity|].
+    unfold guard. intros Hw. unfold spec. split; [rewrite caller_unchanged, f_ident_flat; reflexivity|].
     destruct (o_out (run rmatch ectab x)) as [r| |] eqn:Eo; [|exact I|exact I].
     assert (Hr : released_ok rmatch ectab (flat x) r).
     { apply entry_released_ok; [exact Hw|exact Eo]. }
@@ -1078,7 +1042,7 @@ Section Corollaries.
     intros Hg Ho. destruct (run_spec rmatch ectab x Hg) as [_ H]. rewrite Ho in H. destruct H as [[_ [H _]] _]. exact H.
   Qed.
 
-  Lemma policy_level_holds x : (forall be, i_entry x <> EServer be) -> guard ectab x = true ->
+  Lemma policy_level_holds x : (forall be, i_entry x <> EServer be) -> wf ectab x = true ->
     spec rmatch ectab (flat x) (run rmatch ectab x).
   Proof. intros _ Hw. apply run_spec. exact Hw. Qed.
 
@@ -1440,8 +1404,9 @@ Qed.
        designated identity attributes (match_attr_name_sound above, used by every theorem about the declaration);
    (c) a matching that reads the label FIRST (friendly_name or get_local_name(..)) picks an attribute the requester
        never declared, and lets a REQUIRED attribute the user lacks pass as supplied;
-   (d) Policy.get_entity_categories DOES read the label first (ONLY_REQUIRED categories): finding C10-F5 - the
-       faithful model fails the property on such a requester, and `guard` excludes exactly that class. *)
+   (d) Policy.get_entity_categories DID read the label first (ONLY_REQUIRED categories): finding C10-F5, repaired by
+       4be62a1c - the pre-repair behaviour (get_ec_lf / restrict_lf) fails the property on such a requester; the
+       model of the code as it is now satisfies it with no finding class excluded. *)
 Lemma label_designates_nothing d l k :
   resolved d = Some l -> designates d k -> lower k = lower l \/ lower k = lower (ra_name d).
 Proof.
@@ -1495,9 +1460,9 @@ Proof.
   intros e He. cbn [In] in He. destruct He as [<-|[<-|[<-|[]]]]; vm_compute; repeat split; reflexivity.
 Qed.
 
-(* finding C10-F5 (OPEN): an ONLY_REQUIRED category (GEANT CoCo's shape); the requester REQUIRES urn:oid:2.5.4.3 = cn
-   and labels it "mail": Policy.get_entity_categories reads the label first and the user's mail is released, which
-   the requester never declared as required *)
+(* finding C10-F5 (repaired by 4be62a1c): an ONLY_REQUIRED category (GEANT CoCo's shape); the requester REQUIRES
+   urn:oid:2.5.4.3 = cn and labels it "mail".  BEFORE the repair Policy.get_entity_categories read the label first
+   (restrict_lf) and the user's mail was released, which the requester never declared as required; NOW cn is *)
 Definition w_cn_as_mail : reqattr :=
   {| ra_name := "urn:oid:2.5.4.3"; ra_nf := Some URIf; ra_friendly := Some "mail";
      ra_values := []; ra_loc_l := Some "cn"; ra_loc_r := Some "cn" |}.
@@ -1509,17 +1474,31 @@ Definition witness3 : input :=
      i_pol := w_life_pol; i_sp := "https://sp.example.org/sp.xml";
      i_md := w_life_md [(w_cn_as_mail, Some "true")] ["http://ec/coco"]; i_entry := ERestrict None |}.
 
-Example witness3_releases_the_labelled : o_out (run no_rx w_tab_coco witness3) = Ok [("mail", VL ["ann@example.org"])].
+(* what Policy.restrict answered before 4be62a1c, as an output of the ERestrict entry *)
+Definition run_restrict_lf (rmatch : string -> string -> bool) (ectab : list (string * ecmap)) (x : input) : output :=
+  {| o_out := restrict_lf rmatch ectab (i_ident x) (i_pol x) (i_sp x) (i_md x) None; o_caller := i_ident x; o_self := None |}.
+
+Example witness3_v0_releases_the_labelled :
+  o_out (run_restrict_lf no_rx w_tab_coco witness3) = Ok [("mail", VL ["ann@example.org"])].
 Proof. vm_compute. reflexivity. Qed.
 
-Lemma label_first_categories_refuted : exists rmatch ectab x,
-  wf ectab x = true /\ class3 ectab x = true /\ ~ spec rmatch ectab (flat x) (run rmatch ectab x).
+Example witness3_now_releases_the_declared :
+  guard w_tab_coco witness3 = true /\ o_out (run no_rx w_tab_coco witness3) = Ok [("cn", VL ["Ann Lee"])].
+Proof. vm_compute. split; reflexivity. Qed.
+
+Lemma label_first_categories_v0_refuted : exists rmatch ectab x,
+  i_entry x = ERestrict None /\ wf ectab x = true /\ class3 ectab x = true
+  /\ ~ spec rmatch ectab (flat x) (run_restrict_lf rmatch ectab x).
 Proof.
-  exists no_rx, w_tab_coco, witness3. split; [vm_compute; reflexivity|]. split; [vm_compute; reflexivity|].
+  exists no_rx, w_tab_coco, witness3. split; [reflexivity|]. split; [vm_compute; reflexivity|]. split; [vm_compute; reflexivity|].
   intros H. apply spec_b_iff in H. vm_compute in H. discriminate.
 Qed.
 
-(* the guard is not vacuous next to the finding: the same requester with the agreeing label is inside it *)
+(* the pre-repair run_v0 (code before ALL repairs) fails on it as well *)
+Example witness3_run_v0_fails : spec_b no_rx w_tab_coco witness3 (run_v0 no_rx w_tab_coco witness3) = false.
+Proof. vm_compute. reflexivity. Qed.
+
+(* the same requester with the agreeing label *)
 Example witness3_agreeing_label_guarded :
   let x := {| i_ident := i_ident witness3; i_pol := w_life_pol; i_sp := i_sp witness3;
               i_md := w_life_md [({| ra_name := "urn:oid:2.5.4.3"; ra_nf := Some URIf; ra_friendly := Some "CN";
